@@ -203,6 +203,64 @@ impl Space for ByteWalks {
     }
 }
 
+/// The integer entry types of the lazy tables (`impl ParseAt for u32 / u64`) are the same reads:
+/// same value, same advance, same failure, for both classes and at every (also unaligned) offset.
+pub struct ParseAtInts;
+impl Space for ParseAtInts {
+    fn name(&self) -> String {
+        "<u32 as ParseAt>::parse_at and <u64 as ParseAt>::parse_at vs parse_u32_at / parse_u64_at: buffer length 0..=17 x every offset 0..=len+9 x both classes x 5 specs x 3 byte patterns (value, cursor, Ok/Err must coincide; size_for is 4 / 8 for both classes)".into()
+    }
+    fn size(&self) -> u64 {
+        18 * 3
+    }
+    fn describe(&self, idx: u64) -> Value {
+        json!({"buffer_len": idx % 18, "pattern": idx / 18})
+    }
+    fn run(&self, idx: u64, out: &mut Outcome) {
+        use elf::parse::ParseAt;
+        let len = (idx % 18) as usize;
+        let b: Vec<u8> = match idx / 18 {
+            0 => (0..len).map(|i| 0x11u8.wrapping_mul(i as u8 + 1) ^ 0x80).collect(),
+            1 => vec![0xff; len],
+            _ => (0..len).map(|i| i as u8).collect(),
+        };
+        let mut dig = Fnv::new();
+        for class in [elf::file::Class::ELF32, elf::file::Class::ELF64] {
+            if <u32 as ParseAt>::size_for(class) != 4 || <u64 as ParseAt>::size_for(class) != 8 {
+                out.violate("size_for:integer entry types", format!("{:?}: u32 {} u64 {}", class, <u32 as ParseAt>::size_for(class), <u64 as ParseAt>::size_for(class)));
+            }
+            for off in 0..=len + 9 {
+                for sp in 0..NSPEC {
+                    with_spec!(sp, |e, _order| {
+                        let r = subject(|| {
+                            let (mut a, mut b2, mut c, mut d) = (off, off, off, off);
+                            let x = e.parse_u32_at(&mut a, &b).ok();
+                            let y = <u32 as ParseAt>::parse_at(e, class, &mut b2, &b).ok();
+                            let z = e.parse_u64_at(&mut c, &b).ok();
+                            let w = <u64 as ParseAt>::parse_at(e, class, &mut d, &b).ok();
+                            (x, a, y, b2, z, c, w, d)
+                        });
+                        out.transitions += 4;
+                        match r {
+                            Err(m) => out.violate(format!("panic:{}::ParseAt for integers", SPEC_NAMES[sp]), m),
+                            Ok((x, a, y, b2, z, c, w, d)) => {
+                                if (x, a) != (y, b2) {
+                                    out.violate(format!("parse_at-vs-read:{}::u32", SPEC_NAMES[sp]), format!("buf={} off={off} {:?}: read gives ({:?}, cursor {a}), <u32 as ParseAt>::parse_at gives ({:?}, cursor {b2})", hex(&b), class, x, y));
+                                }
+                                if (z, c) != (w, d) {
+                                    out.violate(format!("parse_at-vs-read:{}::u64", SPEC_NAMES[sp]), format!("buf={} off={off} {:?}: read gives ({:?}, cursor {c}), <u64 as ParseAt>::parse_at gives ({:?}, cursor {d})", hex(&b), class, z, w));
+                                }
+                                dig.u64(x.unwrap_or(0) as u64 ^ z.unwrap_or(0));
+                            }
+                        }
+                    });
+                }
+            }
+        }
+        out.nontrivial(dig.get() ^ idx);
+    }
+}
+
 /// Offsets far beyond the buffer: around every power of two where an offset could be narrowed,
 /// sign-converted or wrapped (2^7 .. 2^63), and the top of the usize range.
 pub struct FarOffsets;
@@ -294,6 +352,7 @@ pub fn build(tier: Tier) -> CheckDef {
     spaces.push(Box::new(ShortBuffers { maxlen: tier.pick(2, 3) }));
     spaces.push(Box::new(ByteWalks));
     spaces.push(Box::new(FarOffsets));
+    spaces.push(Box::new(ParseAtInts));
     if tier == Tier::Thorough {
         spaces.push(Box::new(AllU32));
     }
